@@ -115,6 +115,11 @@ pub fn pd_r2_moves(d: &Diagram) -> Vec<(String, Diagram)> {
     d.r2_moves().into_iter().enumerate().map(|(k, d2)| (format!("R2#{k}"), d2)).collect()
 }
 
+/// every PD-level Reidemeister III move (all orientations of the three strands)
+pub fn pd_r3_moves(d: &Diagram) -> Vec<(String, Diagram)> {
+    d.r3_moves().into_iter().enumerate().map(|(k, d2)| (format!("R3#{k}"), d2)).collect()
+}
+
 /// all single braid-level moves from (strands, word): R2 (insert a cancelling pair anywhere),
 /// far commutation, R3 (braid relation in all valid sign patterns), conjugation (rotation),
 /// Markov stabilisation (+/-).  Only moves whose result has no free loop are returned.
